@@ -5,7 +5,7 @@
    shows for a stable tree is read back by create as the same tree); the byte level (from_cbor after to_cbor) is not, and the
    round trip of whole envelopes is decided by the differential check on every run. *)
 Require Import Coq.Strings.String.
-From Verif Require Import Base.Prim Base.Str Cbor.Codec Suit.Py Suit.PyFacts Suit.Ty Suit.Interp Suit.Tables Suit.Roundtrip Suit.Reparse gen.GenTypes.
+From Verif Require Import Base.Prim Base.Str Cbor.Codec Suit.Py Suit.PyFacts Suit.Ty Suit.Interp Suit.Tables Suit.Roundtrip Suit.Reparse Suit.Typed Suit.Stable Cbor.CodecFacts gen.GenTypes.
 Open Scope Z_scope.
 
 Theorem int_roundtrip env jd c f g : normal c -> check_int c = true ->
@@ -70,6 +70,19 @@ Theorem parse_then_create env hn H u5 fs jl jd sev sprep sp sd f b o v :
   = (let* e2 := apply_steps env hn H sev (fun t' v' => to_cbor env f t' v') (s2b "SuitEnvelopeTagged") sprep v in to_cbor env f (TRef (s2b "SuitEnvelopeTagged")) e2).
 Proof. intros Hfc Hst Hp. exact (Reparse.parse_then_create env hn H u5 fs jl jd sev sp sd sprep f _ b o v Hfc Hst Hp eq_refl). Qed.
 Print Assumptions parse_then_create.
+
+(* every tree the parser builds from a string of real bytes meets the SYNTACTIC conditions of stability (pst: scalars of the right
+   kind, byte strings of real bytes, named tuples with the values their member list allows, no repeated members, pairwise different
+   map keys) — for the regenerated table, whose well-formedness now includes the member-name conditions of named tuples and
+   key-value nodes (checked by computation on every run).  What can keep a parsed tree from being re-read unchanged is therefore only
+   an ambiguity premise at a union / header-map / payload-map / text-map node. *)
+Theorem parsed_trees_are_syntactically_stable jd f t b v :
+  Typed.wf types t = true -> bytes_ok b -> from_cbor types jd f t b = Ok v -> pst types t v.
+Proof.
+  intros Hwf Hb E. assert (Henv : env_wf types = true) by (vm_compute; reflexivity).
+  pose proof (from_cbor_pst types jd Henv f t b Hwf Hb) as Hg. rewrite E in Hg. exact Hg.
+Qed.
+Print Assumptions parsed_trees_are_syntactically_stable.
 
 (* non-vacuity: a digest tuple (enumerated algorithm name + bytes) of the regenerated table is stable, and is rebuilt *)
 Example digest_tuple_stable hn H u5 fs jl jd sev sp sd :
